@@ -1,6 +1,22 @@
-"""C13: tables behave like a list of rows (C-level row/column operations)."""
+"""C13: tables behave like a list of rows (C-level row/column operations by llsym; the Python row assignment / append
+facade by CrossHair)."""
+import os
+import sys
+
+HERE = os.path.dirname(os.path.dirname(os.path.abspath(__file__)))
+sys.path.insert(0, os.path.join(HERE, 'engine'))
 
 H = 'c13_tables.c'
+
+
+def conds(tier):
+    enc = ['tskit.tables.BaseTable.__setitem__', 'tskit.tables.BaseTable.append']
+    return [
+        dict(module='c13_props', function='setitem_index_and_columns', timeout=120, encodes=enc,
+             what='table[index] = row: list indexing for 1-5 rows and index in [-12,12]; all columns from the row, metadata decoded by the source and re-encoded by the destination schema, read before or not'),
+        dict(module='c13_props', function='append_passes_every_column', timeout=60,
+             what='append(row) hands every column (decoded metadata) to add_row and returns the id'),
+    ]
 
 
 def J(name, defines, **kw):
@@ -43,7 +59,7 @@ BOUNDS = {
              'default or 1 (reallocation on every insertion); contents compared with a plain C array of rows after every step; edge, site, migration, population and provenance tables: every single operation from the same set on a 2-row table',
     'thorough': 'sequences of 3 (node) and 2 (individual, mutation, edge, population) operations (time-boxed)',
 }
-OUTSIDE = ['the Python facade: __getitem__ with slices/masks/id arrays, packset_*, column attribute assignment, '
+OUTSIDE = ['the Python facade other than row assignment / append: __getitem__ with slices/masks/id arrays, packset_*, column attribute assignment, '
            'drop_metadata (numpy)', 'immutability of TreeSequence objects and WRITEABLE flags of exported arrays (numpy / CPython)',
            'sequences of two or more operations on edge, site, migration, population and provenance tables (quick tier: single operations)',
            'set_columns; append_columns on tables other than the node table']
@@ -53,4 +69,10 @@ MANIFEST = dict(
          'symbolic row contents: get_row of every row, ragged offsets and totals after every step; keep_rows id_map, '
          'self-reference remapping and rejection of dangling references with the table left unchanged.',
     note='Histories bounded; three of the eight table kinds; Python-level facade and tree-sequence immutability are outside.',
-    technique='symbolic execution of LLVM IR + SMT (z3), bounded histories, differential against a list model')
+    technique='symbolic execution of LLVM IR + SMT (z3), bounded histories, differential against a list model; CrossHair on the Python row-assignment facade')
+
+
+def run(pid, tier, seed, only=None):
+    import mixed
+    return mixed.run_mixed(pid, tier, seed, only, jobs(tier), conds(tier), BOUNDS[tier], OUTSIDE, ASSUMPTIONS,
+                           ['fake node table (column_names, __len__, recorder ll_table, tagging metadata schema)'])
